@@ -44,17 +44,51 @@ func (m *Mutex) Unlock() {
 	}
 }
 
-// RWMutex wraps a real sync.RWMutex in the same way.
-type RWMutex struct{ mu sync.RWMutex }
+// RWMutex wraps a real sync.RWMutex in the same way, and models the one rule of sync.RWMutex that a
+// TryLock loop would lose: a writer that has called Lock and is waiting for the readers to leave blocks every
+// later RLock until it has unlocked again (so a goroutine that read-locks twice deadlocks when a writer arrives in
+// between - "recursive read locking" in the sync documentation). The real mutex is never asked to block, so it
+// never has a pending writer of its own; `announced` is the pending (or active) writer, kept in plain memory
+// that only //go:norace helpers touch (one task at a time, under the baton).
+type RWMutex struct {
+	mu sync.RWMutex
+	st rwState
+}
+
+type rwState struct{ announced bool }
+
+//go:norace
+func rwAnnounce(s *rwState) bool {
+	if s.announced {
+		return false
+	}
+	s.announced = true
+	return true
+}
+
+//go:norace
+func rwClear(s *rwState) { s.announced = false }
+
+//go:norace
+func rwAnnounced(s *rwState) bool { return s.announced }
 
 func (m *RWMutex) Lock() {
 	if !multi() {
 		lockAlone(m.mu.TryLock, m.mu.Lock)
 		return
 	}
+	mine := false
 	for {
 		Yield(-3)
-		if m.mu.TryLock() {
+		if !mine {
+			// writers queue behind the one that has announced itself (sync.RWMutex: its inner mutex w)
+			if !rwAnnounce(&m.st) {
+				block()
+				continue
+			}
+			mine = true
+		}
+		if m.mu.TryLock() { // succeeds once the readers that were in have left
 			return
 		}
 		block()
@@ -62,6 +96,7 @@ func (m *RWMutex) Lock() {
 }
 
 func (m *RWMutex) Unlock() {
+	rwClear(&m.st)
 	m.mu.Unlock()
 	if multi() {
 		wake()
@@ -76,7 +111,7 @@ func (m *RWMutex) RLock() {
 	}
 	for {
 		Yield(-5)
-		if m.mu.TryRLock() {
+		if !rwAnnounced(&m.st) && m.mu.TryRLock() {
 			return
 		}
 		block()
@@ -91,8 +126,14 @@ func (m *RWMutex) RUnlock() {
 	}
 }
 
-func (m *RWMutex) TryLock() bool  { return m.mu.TryLock() }
-func (m *RWMutex) TryRLock() bool { return m.mu.TryRLock() }
+func (m *RWMutex) TryLock() bool {
+	if rwAnnounced(&m.st) || !m.mu.TryLock() {
+		return false
+	}
+	rwAnnounce(&m.st)
+	return true
+}
+func (m *RWMutex) TryRLock() bool { return !rwAnnounced(&m.st) && m.mu.TryRLock() }
 func (m *RWMutex) RLocker() sync.Locker {
 	return rlocker{m}
 }
